@@ -17,6 +17,7 @@ FENCES = {
  "positional-map-before-declaration": "C06/C04: positional maps only when modules are written in declaration-before-use order",
  "flattened-names-written-unescaped": "C04: after flatten the minted names (a/b) are respelled as plain identifiers before composing; emptied modules are compared by their ports only; the composer's refusal of an assign across cables is counted, not judged",
  "non-integer-position-fails-late": "C02, C10, C14, C19: no non-integer / oversized position= arguments; C01: none for connect_pin only (the add_* calls are driven with them: C01's facts hold there)",
+ "comparer-depends-on-pin-order-within-wire": "C20: Verilog write-then-read copies are not offered to the comparer (Verilog-origin netlists still go through the rebuild / itself comparisons and every mutation)",
  "eblif-conn-on-bus-bit-renumbers-bus": "C18: no write-and-read-back after a .conn on a bus bit below the top bit (the reader's result is still judged against the model)",
 }
 for x in f:
